@@ -138,6 +138,17 @@ extern "C" void graphite2_verif_coll_resolved(const void *segp, const void *targ
     if (why && !g_efailed) { g_efailed = true; JObj o; o.kv("kind", "collision_resolve").kv("why", why).kv("detail", detail).kv("case_desc", g_edesc).kv("dir", g_edir); report_fail(g_eidx, o); }
 }
 
+// KernCollider::resolve observed through the hook: accumulated kern offset + new kern inside the x range of a well-formed limit rectangle
+extern "C" void graphite2_verif_kern_resolved(const void *segp, const void *targetp, float shx, float shy) {
+    using namespace graphite2; Segment *seg = (Segment*)segp; Slot *t = (Slot*)targetp; SlotCollision *ct = seg->collisionInfo(t);
+    if (g_ectl) g_ectl->counters[3] = g_ectl->counters[3] + 1;
+    const Rect lim = ct->limit(); const Position off = ct->offset(); const char *why = nullptr; char detail[200] = "";
+    if (!(std::fabs(shx) < 1e30f) || shy != 0.f) { why = "kern shift is not a finite horizontal move"; snprintf(detail, sizeof detail, "shift=(%g,%g)", shx, shy); }
+    else if (lim.bl.x <= lim.tr.x) { float acc = off.x + shx, tol = 0.01f + 1e-5f * (std::fabs(lim.bl.x) + std::fabs(lim.tr.x) + std::fabs(off.x)); if (g_ectl) g_ectl->counters[4] = g_ectl->counters[4] + 1;
+        if (acc < lim.bl.x - tol || acc > lim.tr.x + tol) { why = "kern moves the accumulated collision offset outside the limit rectangle"; snprintf(detail, sizeof detail, "offset.x+kern=%g limit.x=[%g,%g]", acc, lim.bl.x, lim.tr.x); } }
+    if (why && !g_efailed) { g_efailed = true; JObj o; o.kv("kind", "kern_resolve").kv("why", why).kv("detail", detail).kv("case_desc", g_edesc).kv("dir", g_edir); report_fail(g_eidx, o); }
+}
+
 static Corpus g_c; static FaceCache *g_fc; static std::vector<std::string> g_syn; static std::vector<std::vector<std::string>> g_syntx; struct ECase { int kind, font, item, dir; }; static std::vector<ECase> g_ec;
 static void setup_e2e(Runner &r, const Tier &t) {
     g_c.build({ "Awami_test.ttf", "Awami_compressed_test.ttf", "AwamiNastaliq-Regular.ttf" }, t.thorough ? 0 : 250, { 1, 3 }); g_ec.clear();
@@ -251,13 +262,49 @@ static void setup_lattice2(Runner &r, const Tier &t) {
         ctl.cls(uint64_t(tg) * 70001 + ng[0] * 31 + ng[1] * 7 + c.limit); gr_seg_destroy(gs);
     };
 }
+
+// ---- KernCollider lattice: target at the origin, one neighbour on a lattice; initSlot / mergeSlot / resolve / shift as Pass::resolveKern drives them
+static std::vector<LCase> g_lck;
+static const float KOFF[4] = { 0, 30, -30, 200 }; static const float KSPACE[2] = { 0, 50 };
+static void setup_kern(Runner &r, const Tier &t) {
+    Runner dummy; setup_lattice(dummy, t); g_lck.clear();
+    for (size_t f = 0; f < g_lfonts.size(); ++f) { int ng = int(g_lgids[f].size());
+        for (int a = 0; a < ng; ++a) for (int b = 0; b < ng; ++b) for (int l = 0; l < 5; ++l) for (int m = 0; m < 2; ++m) for (int o = 0; o < 4; ++o) for (int sp = 0; sp < 2; ++sp) for (int dir = 0; dir < 2; ++dir) g_lck.push_back({ int(f), a, b, l, m, o, sp, dir, 0, 0 }); }
+    r.ncases = g_lck.size(); r.case_alarm_s = 120; r.shard_init = [](int) { g_fc = new FaceCache; };
+    r.describe = [](uint64_t i) { const LCase &c = g_lck[i]; JObj o; o.kv("collider", "KernCollider").kv("font", g_lfonts[c.font]).kv("target_gid", g_lgids[c.font][c.tg]).kv("neighbour_gid", g_lgids[c.font][c.ng]).kv("limit", c.limit).kv("margin", c.margin ? 20 : 0).kv("offset_prev_x", double(KOFF[c.off])).kv("curr_space", double(KSPACE[c.sh])).kv("dir", c.dir).kv("neighbour_origins", "lattice " + std::to_string(g_lat) + "x" + std::to_string(g_lat)); return o; };
+    r.body = [](uint64_t i, ShardCtl &ctl) {
+        using namespace graphite2; const LCase &c = g_lck[i]; gr_face *face = g_fc->get(g_lfonts[c.font], gr_face_preloadAll); if (!face) return;
+        const char *tx = c.font == 0 ? "\xD8\xA8\xD8\xA8\xD8\xA8" : "abc"; gr_segment *gs = gr_make_seg(nullptr, face, 0, nullptr, gr_utf8, tx, 3, c.font == 0 ? 1 : 0); if (!gs) return;
+        Segment *seg = static_cast<Segment*>(gs); if (!seg->hasCollisionInfo() || seg->slotCount() < 2) { gr_seg_destroy(gs); return; }
+        Slot *t = seg->first(), *n = t->next(); const GlyphCache &gc = seg->getFace()->glyphs(); unsigned short tg = g_lgids[c.font][c.tg], ng = g_lgids[c.font][c.ng];
+        for (Slot *q = seg->first(); q; q = q->next()) { while (q->firstChild()) { Slot *ch = q->firstChild(); q->removeChild(ch); ch->attachTo(NULL); } }
+        t->setGlyph(seg, tg); n->setGlyph(seg, ng);
+        const BBox &tb = gc.getBoundingBBox(tg), &nb = gc.getBoundingBBox(ng); float span = (tb.xa - tb.xi) + (nb.xa - nb.xi) + (tb.ya - tb.yi) + (nb.ya - nb.yi); if (span <= 0) span = 1000;
+        Rect limit(Position(LIM[c.limit][0], LIM[c.limit][1]), Position(LIM[c.limit][2], LIM[c.limit][3])); float margin = c.margin ? 20.f : 0.f; Position offp(KOFF[c.off], 0), sh(0, 0);
+        SlotCollision *ct = seg->collisionInfo(t), *cn = seg->collisionInfo(n); cn->setFlags(0); cn->setShift(Position(0, 0)); cn->setOffset(Position(0, 0)); ct->setShift(sh);
+        t->origin(Position(0, 0)); const Rect &bbb = seg->theGlyphBBoxTemporary(tg); float ymin = 1e38f, ymax = -1e38f; ymax = std::max(bbb.tr.y, ymax); ymin = std::min(bbb.bl.y, ymin);
+        for (int ix = 0; ix < g_lat; ++ix) for (int iy = 0; iy < g_lat; ++iy) {
+            float nx = (ix - g_lat / 2) * span / g_lat, ny = (iy - g_lat / 2) * span / g_lat; n->origin(Position(nx, ny));
+            KernCollider coll(NULL); if (!coll.initSlot(seg, t, limit, margin, sh, offp, c.dir, ymin, ymax, NULL)) continue;
+            bool collides = coll.mergeSlot(seg, n, cn->shift(), KSPACE[c.sh], c.dir, NULL); ctl.counters[0] = ctl.counters[0] + 1; if (!collides) continue;
+            Position mv = coll.resolve(seg, t, c.dir, NULL); coll.shift(mv, c.dir); ctl.counters[3] = ctl.counters[3] + 1;
+            const char *why = nullptr; char detail[200] = "";
+            if (!(std::fabs(mv.x) < 1e30f) || mv.y != 0.f) { why = "kern shift is not a finite horizontal move"; snprintf(detail, sizeof detail, "kern=(%g,%g)", mv.x, mv.y); }
+            else if (limit.bl.x <= limit.tr.x) { ctl.counters[1] = ctl.counters[1] + 1; float acc = offp.x + mv.x, tol = 0.01f + 1e-5f * (std::fabs(limit.bl.x) + std::fabs(limit.tr.x) + std::fabs(offp.x));
+                if (acc < limit.bl.x - tol || acc > limit.tr.x + tol) { why = "kern moves the accumulated collision offset outside the limit rectangle"; snprintf(detail, sizeof detail, "offset.x+kern=%g limit.x=[%g,%g] neighbour at (%g,%g)", acc, limit.bl.x, limit.tr.x, nx, ny); } }
+            if (why) { JObj o; o.kv("kind", "kern_lattice").kv("why", why).kv("detail", detail).kv("font", g_lfonts[c.font]).kv("target_gid", tg).kv("neighbour_gid", ng).kv("dir", c.dir).kv("limit", c.limit).kv("offset_prev_x", double(offp.x)).kv("margin", double(margin)); if (lattice_first(why, false, c.font, 3)) report_fail(i, o); else ctl.counters[4] = ctl.counters[4] + 1; ix = iy = g_lat; }
+        }
+        ctl.cls(uint64_t(tg) * 70001 + ng * 31 + c.limit + 1000003); gr_seg_destroy(gs);
+    };
+}
 static void extra_l(const Runner &r, JObj &o) { o.kv("arrangements", (unsigned long long)r.counters[0]); }
 static void extra_e(const Runner &r, JObj &o) { o.kv("resolves_observed", (unsigned long long)r.counters[0]); }
 int main(int argc, char **argv) {
     std::vector<Sub> subs;
     { Sub s; s.name = "zones_sequences"; s.setup = setup_zones; s.budget_quick = 120; s.budget_thorough = 900; s.counter_names = { "operations" }; s.extra = extra_z; subs.push_back(s); }
-    { Sub s; s.name = "end_to_end"; s.setup = setup_e2e; s.budget_quick = 120; s.budget_thorough = 900; s.counter_names = { "resolves", "limit_clause_checked", "neighbour_pairs_checked" }; s.extra = extra_e; subs.push_back(s); }
+    { Sub s; s.name = "end_to_end"; s.setup = setup_e2e; s.budget_quick = 120; s.budget_thorough = 900; s.counter_names = { "resolves", "limit_clause_checked", "neighbour_pairs_checked", "kern_resolves", "kern_limit_clause_checked" }; s.extra = extra_e; subs.push_back(s); }
     { Sub s; s.name = "collider_lattice"; s.setup = setup_lattice; s.budget_quick = 140; s.budget_thorough = 1200; s.counter_names = { "arrangements", "limit_clause_checked", "verdict_checked", "with_collision", "repeat_failures_not_reported" }; s.extra = extra_l; subs.push_back(s); }
     { Sub s; s.name = "collider_lattice2"; s.setup = setup_lattice2; s.budget_quick = 150; s.budget_thorough = 1500; s.counter_names = { "arrangements", "limit_clause_checked", "verdict_checked", "with_collision", "repeat_failures_not_reported" }; s.extra = extra_l; subs.push_back(s); }
+    { Sub s; s.name = "kern_lattice"; s.setup = setup_kern; s.budget_quick = 100; s.budget_thorough = 600; s.counter_names = { "arrangements", "limit_clause_checked", "unused", "kern_resolves", "repeat_failures_not_reported" }; s.extra = extra_l; subs.push_back(s); }
     return check_main(argc, argv, "C17", subs);
 }
